@@ -247,7 +247,13 @@ def _m_proc_sql_mat(pid, v, context):
     kind, detail = v.get("kind"), v.get("detail", "")
     if kind in ("processed-tree-not-executable", "process-raised", "executor-failed") and "Cannot persist materialization" in detail:
         return True
-    if kind in ("materialization-recomputed", "hook-repeated", "upstream-evaluated-twice", "materialization-hook-twice"):
+    if kind in (
+        "materialization-recomputed",
+        "hook-repeated",
+        "upstream-evaluated-twice",
+        "materialization-hook-twice",
+        "materialization-without-payload",
+    ):
         return True
     return False
 
